@@ -14,7 +14,9 @@ const MSGS: [&str; 11] = ["boom", "two words", "x=1", "bad: value", "e#1", "no \
 fn gen_ops(r: &mut Rng, n: usize) -> Vec<Value> {
     (0..n)
         .map(|_| match r.below(14) {
-            12 | 13 => json!({"k": "scriptcmd", "c": r.pick(&["array_is_empty nohandle", "map_is_empty nohandle", "set_is_empty nohandle", "map_contains_key nohandle k", "map_contains_value nohandle v"])}),
+            12 | 13 => json!({"k": "scriptcmd", "c": r.pick(&["array_is_empty nohandle", "map_is_empty nohandle", "set_is_empty nohandle", "map_contains_key nohandle k", "map_contains_value nohandle v",
+                // (these three fail from inside an if block of their own body)
+                "array_concat nohandle", "set_from_array nohandle", "array_join nohandle ,"])}),
             0 | 1 => json!({"k": "ok"}),
             2 | 3 => json!({"k": "trig", "m": r.pick(&MSGS)}),
             4 => json!({"k": "trig0"}),
@@ -31,7 +33,7 @@ fn gen_ops(r: &mut Rng, n: usize) -> Vec<Value> {
 
 fn with_wraps(r: &mut Rng, ops: Vec<Value>) -> Vec<Value> {
     // an operation may sit in a taken branch, in an else branch or in the body of a function that is then called
-    ops.into_iter().map(|mut o| { o["wrap"] = json!(if r.chance(1, 3) { 1 + r.below(3) } else { 0 }); o }).collect()
+    ops.into_iter().map(|mut o| { o["wrap"] = json!(if r.chance(2, 5) { 1 + r.below(4) } else { 0 }); o }).collect()
 }
 
 pub fn gen(r: &mut Rng) -> Value {
@@ -67,7 +69,7 @@ fn render(prefix: &str, i: usize, op: &Value) -> String {
 fn push_op(lines: &mut Vec<String>, prefix: &str, i: usize, op: &Value) -> usize {
     let w = op["wrap"].as_u64().unwrap_or(0);
     match w {
-        1 => lines.push("if true".to_string()),
+        1 | 4 => lines.push("if true".to_string()),
         2 => {
             lines.push("if false".to_string());
             lines.push("else".to_string());
@@ -79,6 +81,12 @@ fn push_op(lines: &mut Vec<String>, prefix: &str, i: usize, op: &Value) -> usize
     let at = lines.len();
     match w {
         1 | 2 => lines.push("end".to_string()),
+        4 => {
+            // a taken branch followed by an else branch, which must stay untouched
+            lines.push("else".to_string());
+            lines.push(format!("{}{}skipped = set reached", prefix, i));
+            lines.push("end".to_string());
+        }
         3 => {
             lines.push("end".to_string());
             lines.push(format!("{}fun{}", prefix, i));
